@@ -2,7 +2,8 @@
 From Coq Require Import QArith Qround Sorted.
 From HTA.lib Require Import Base.
 From HTA.model Require Import Loader_Model.
-From HTA.proof Require Import Loader_Proofs C12_Proofs.
+From HTA.gen Require Import Rounding_gen.
+From HTA.proof Require Import Loader_Proofs C12_Proofs C01_RulesTie.
 Open Scope Z_scope.
 
 (* rows <-> complete entries, identified by their position in traceEvents, in increasing order, none twice *)
@@ -62,6 +63,13 @@ Proof. exact load_ids_unique. Qed.
 Print Assumptions C01_load_ids_unique.
 
 (* fractional timestamps: start rounded up, end rounded down, for all rationals *)
+(* the rounding the theorems below speak of is the one regenerated from round_down_time_stamps on every run: ceil for the start,
+   floor for the end, duration = their difference, behind exactly two guards (float64 ts column, option not disabling it) *)
+Theorem C01_rounding_follows_source : forall t e : Q,
+  round_event t e = round_event_gen t e /\ round_ts t = round_ts_gen t /\ round_end e = round_end_gen e.
+Proof. exact rounding_is_generated. Qed.
+Print Assumptions C01_rounding_follows_source.
+
 Theorem C01_round_inward : forall t e : Q,
   (t <= inject_Z (round_ts t))%Q /\ (inject_Z (round_end e) <= e)%Q.
 Proof. exact round_inward. Qed.
